@@ -7,7 +7,7 @@ import vcommon as v
 import crashengine as ce
 
 PROP = "C05"
-INV = ["Partition", "MetaMatches", "NoUnknownRegion", "RealCount", "RealPartition", "OutageHeals"]
+INV = ["Partition", "MetaMatches", "NoUnknownRegion", "RealCount", "RealPartition", "RealFreeNotLive", "OutageHeals"]
 
 
 def run(tier, seed):
